@@ -94,6 +94,9 @@ func (h *H) inject(m *Mon, t coin.Transaction, class string, foreign bool) {
 	admitted := err == nil
 	if admitted {
 		h.R.Count("inject.admitted", 1)
+		if strings.Contains(class, "huge-hours") || strings.Contains(class, "biggest-input") {
+			h.R.Count("inject.admitted.class."+class, 1)
+		}
 		h.R.Distinct("admitted:" + kind + ":" + class)
 	} else {
 		h.R.Count("inject.refused."+errClass, 1)
@@ -459,8 +462,9 @@ func (h *H) stepRemoveInvalid(m *Mon) {
 	h.log("remove-invalid on " + m.Name)
 	expect := map[cipher.SHA256]bool{}
 	for hsh, e := range m.M.Pool {
-		if len(nonLegacy(m.M.TxnSingleHard(&e.Txn))) > 0 {
+		if cs := nonLegacy(m.M.TxnSingleHard(&e.Txn)); len(cs) > 0 {
 			expect[hsh] = true
+			h.R.Count("pool.remove.expected."+cs[0].Name, 1)
 		}
 	}
 	got, err := m.N.V.RemoveInvalidUnconfirmed()
